@@ -10,9 +10,18 @@ export VERIF_ROOT="$ROOT"
 mkdir -p "$ROOT/bin" "$ROOT/evidence" "$ROOT/replays"
 build() {
   local tmp="$ROOT/bin/svcsim.$$"
-  cp /repo/go.sum "$ROOT/sim/go.sum" 2>/dev/null
-  ( cd "$ROOT/sim" && go build -o "$tmp" . ) >"$ROOT/bin/build.$$.log" 2>&1
+  local repo="${VERIF_REPO:-/repo}"
+  cp "$repo/go.sum" "$ROOT/sim/go.sum" 2>/dev/null
+  if [ "$repo" = "/repo" ]; then
+    ( cd "$ROOT/sim" && go build -o "$tmp" . ) >"$ROOT/bin/build.$$.log" 2>&1
+  else
+    # background sweeps may build against a snapshot of the repository (VERIF_REPO); registered checks never set it
+    sed "s#=> /repo#=> $repo#" "$ROOT/sim/go.mod" > "$ROOT/bin/alt.$$.mod"
+    cp "$ROOT/sim/go.sum" "$ROOT/bin/alt.$$.sum"
+    ( cd "$ROOT/sim" && go build -modfile="$ROOT/bin/alt.$$.mod" -o "$tmp" . ) >"$ROOT/bin/build.$$.log" 2>&1
+  fi
   local rc=$?
+  rm -f "$ROOT/bin/alt.$$.mod" "$ROOT/bin/alt.$$.sum"
   if [ $rc -ne 0 ]; then
     echo "BUILD FAILED (simulator against /repo working tree):" >&2
     tail -40 "$ROOT/bin/build.$$.log" >&2
